@@ -40,6 +40,7 @@ import (
 const (
 	hdrRid  = "X-Verif-Rid"
 	hdrAuth = "X-Verif-Auth"
+	hdrMut  = "X-Verif-Mutate" // what a mutating probe writes into the AuthToken it was handed ("r/w", default Self/Self)
 
 	cookieName = "Portmaster-API-Token" // documented name of the session cookie (Set-Cookie of the server)
 	testHost   = "api.verif.test:817"
@@ -54,6 +55,8 @@ type obs struct {
 	Tok        *mtoken     `json:"tok,omitempty"`         // AuthToken the probe saw via GetAPIRequest
 	TokNil     bool        `json:"tok_nil,omitempty"`     // probe ran without an AuthToken
 	TokUnseen  bool        `json:"tok_unseen,omitempty"`  // the handler ran but had no way to report its token
+	TokShared  bool        `json:"tok_shared,omitempty"`  // the very same token object was handed to a handler of another request before
+	Mutated    bool        `json:"mutated,omitempty"`     // the probe wrote into the token it was handed
 	SeenMethod string      `json:"seen_method,omitempty"` // r.Method inside the probe
 	AuthCalled int         `json:"auth_called"`           // how often the authenticator ran
 	Status     int         `json:"status"`                // status code written (0 = none)
@@ -99,6 +102,8 @@ type world struct {
 	configured []cfgKey // what the harness last configured (after cleanup of expired keys)
 	model      *mWorld
 
+	tokSeen map[*api.AuthToken]*obs // every token object a probe was handed (kept alive: pointer equality = same object)
+
 	inflight    atomic.Int64
 	maxInflight atomic.Int64
 	ridCtr      atomic.Uint64
@@ -141,7 +146,7 @@ func freePort() string {
 
 // startWorld starts the module system in this process. logLevel: "trace" ... "critical".
 func startWorld(dir string, b *vlib.Batch, logLevel string) (*world, error) {
-	w := &world{dir: dir, b: b, elog: vlib.NewLog(), byRid: map[string]*obs{}, keySig: make(chan struct{}, 1),
+	w := &world{dir: dir, b: b, elog: vlib.NewLog(), byRid: map[string]*obs{}, tokSeen: map[*api.AuthToken]*obs{}, keySig: make(chan struct{}, 1),
 		panics: make(chan *modules.ModuleError, 256), model: newMWorld()}
 	root := filepath.Join(dir, "dataroot")
 	if err := os.MkdirAll(root, 0o755); err != nil {
@@ -285,6 +290,23 @@ func (w *world) registerProbes() {
 			_, _ = io.WriteString(rw, "probe-ok")
 		}, rr, rr))
 	}
+	for _, rw := range mutPlainPerms {
+		api.RegisterHandler("/verif/m/"+pname(rw[0])+"/"+pname(rw[1]), &probe{w: w, kind: "mut-plain", r: api.Permission(rw[0]), p: api.Permission(rw[1])})
+	}
+	api.RegisterHandler("/verif/mw", api.WrapInAuthHandler(func(rw http.ResponseWriter, req *http.Request) {
+		w.recordInvoke(req, "mut-wrapped")
+		rw.WriteHeader(http.StatusOK)
+		_, _ = io.WriteString(rw, "probe-ok")
+	}, api.PermitAnyone, api.PermitAnyone))
+	for _, kind := range endpointFuncKinds {
+		for _, rw := range [][2]int{{1, 1}, {-1, 2}} {
+			e := api.Endpoint{Path: "verif/mut/" + kind + "/" + pname(rw[0]) + "/" + pname(rw[1]), Read: api.Permission(rw[0]), Write: api.Permission(rw[1]), Name: "verif mutating probe " + kind}
+			w.setEndpointFuncKind(&e, kind, "mut-endpoint-"+kind)
+			if err := api.RegisterEndpoint(e); err != nil {
+				panic(fmt.Sprintf("RegisterEndpoint %s: %v", e.Path, err))
+			}
+		}
+	}
 	api.RegisterHandler("/verif/d/{r}/{w}", &dynProbe{w: w})
 	api.RegisterHandleFunc("/verif/u", func(rw http.ResponseWriter, req *http.Request) {
 		w.recordInvoke(req, "undeclared")
@@ -326,8 +348,14 @@ func endpointKindFor(r, p int) string {
 	return endpointFuncKinds[(ri*len(endpointPermVals)+pi)%len(endpointFuncKinds)]
 }
 
+// mutPlainPerms: declared read/write of the plain mutating probes.
+var mutPlainPerms = [][2]int{{1, 1}, {-1, -1}, {2, 2}, {1, 3}, {3, 1}}
+
 func (w *world) setEndpointFunc(e *api.Endpoint, kind string) {
-	k := "endpoint-" + kind
+	w.setEndpointFuncKind(e, kind, "endpoint-"+kind)
+}
+
+func (w *world) setEndpointFuncKind(e *api.Endpoint, kind, k string) {
 	switch kind {
 	case "action":
 		e.ActionFunc = func(ar *api.Request) (string, error) { w.recordInvokeAR(ar, k); return "probe-ok", nil }
@@ -392,6 +420,28 @@ func (w *world) recordInvokeTok(r *http.Request, kind string, tok *api.AuthToken
 		o.TokNil = true
 	} else {
 		o.Tok = &mtoken{R: mperm(tok.Read), W: mperm(tok.Write)}
+		// token identity: documented intent is that a handler gets its own copy
+		if prev, seen := w.tokSeen[tok]; seen && prev != o {
+			o.TokShared = true
+		} else {
+			w.tokSeen[tok] = o
+		}
+		if strings.HasPrefix(kind, "mut-") {
+			// the cooperating handler: it writes into the token of its OWN request
+			a, b := 4, 4
+			if r != nil {
+				if parts := strings.Split(r.Header.Get(hdrMut), "/"); len(parts) == 2 {
+					if x, ok := pparse(parts[0]); ok {
+						a = x
+					}
+					if y, ok := pparse(parts[1]); ok {
+						b = y
+					}
+				}
+			}
+			tok.Read, tok.Write = api.Permission(a), api.Permission(b)
+			o.Mutated = true
+		}
 	}
 }
 
@@ -445,7 +495,8 @@ type reqSpec struct {
 	Path   string  `json:"path"`
 	Authz  string  `json:"authz,omitempty"`
 	Cookie string  `json:"cookie,omitempty"`
-	Auth   string  `json:"auth,omitempty"` // X-Verif-Auth
+	Auth   string  `json:"auth,omitempty"`   // X-Verif-Auth
+	Mutate string  `json:"mutate,omitempty"` // X-Verif-Mutate
 	Target mTarget `json:"target"`
 	// bookkeeping for signatures / coverage (chosen by the generator, not used by the model)
 	CredTag string `json:"cred_tag,omitempty"`
@@ -500,6 +551,9 @@ func (w *world) buildRequest(sp *reqSpec, rid string) *http.Request {
 	}
 	if sp.Auth != "" {
 		req.Header[hdrAuth] = []string{sp.Auth}
+	}
+	if sp.Mutate != "" {
+		req.Header[hdrMut] = []string{sp.Mutate}
 	}
 	if rid != "" {
 		req.Header[hdrRid] = []string{rid}
